@@ -193,6 +193,12 @@ def _case(draw):
             case['index_keys'] = [[k - n_old if draw(st.integers(0, 3)) == 0 else k, 30 + k, draw(st.sampled_from([0, 0, 0, 1]))] for k in draw(st.permutations(ks))]
             case['new_weak'] = case['old_weak'] = []
             return case
+        if path and case['new_list'] and draw(st.integers(0, 2)) == 0:
+            # the newer value is a function node whose positional arguments are the newer elements: it takes the list over, element by
+            # element as a list would (protected elements keep their index among the arguments)
+            case['via'] = 'callpos'
+            case['new_weak'] = case['old_weak'] = []
+            return case
         m_ = min(n_old, len(case['new_list']))
         if m_ and draw(st.integers(0, 2)) == 0:
             j = draw(st.integers(0, m_ - 1))
@@ -765,7 +771,10 @@ def _run_e(case, labels):
     holder['items'] = [it for it in holder['items'] if it[0] != 'L'] + [['L', tdoc.sq(old_elems, flow=True)]]
     lst = tdoc.sq(new_elems, flow=True)
     new_prio = [(-1 if i in new_weak else 0) for i in range(len(new_list))]
-    if via == 'list':
+    if via == 'callpos':
+        cont = None
+        lst = tdoc.sq([tdoc.sc(v) for v in new_list], flow=True, tag='!call:vfrec.call_78')
+    if via in ('list', 'callpos'):
         newer = _wrap(path + ['L'], lst)
     else:
         newer = _wrap(path, tdoc.mp([('L', lst)], flow=False, **{'del': True}))
@@ -786,8 +795,14 @@ def _run_e(case, labels):
             got_at = got_at[k]
     except (KeyError, TypeError, IndexError):
         got_at = None
+    if via == 'callpos':
+        labels.add('e-via-function-node-with-positional-arguments')
+        if not (isinstance(got_at, dict) and got_at.get('called') == 78 and got_at.get('kw') == {}):
+            raise Violation(f'C04e: the list replaced by a function node: expected the result of call 78 at the place, got {got_at!r}{src}')
+        got = replace_at(got, path + ['L'], list(got_at['args']))
+        got_at = list(got_at['args'])
     # everything around the list: exactly as for any other replacement
-    frame_expected = replace_at(old_ev, path + ['L'], 'LIST') if via == 'list' else replace_at(old_ev, path, {'L': 'LIST'})
+    frame_expected = replace_at(old_ev, path + ['L'], 'LIST') if via in ('list', 'callpos') else replace_at(old_ev, path, {'L': 'LIST'})
     frame_got = replace_at(got, path + ['L'], 'LIST') if got_at is not None else got
     labels.add('e-via-' + via)
     labels.add('e-protected=%d' % min(len(protected), 2))
